@@ -49,6 +49,8 @@ def alt_values(V):
     if k == "str":
         s = V["s"]
         out.append(("value-changed", S(s + "x")))
+        if "\n" in s:
+            out.append(("value-newline-to-other-separator", S(s.replace("\n", ["\u2028", "\x85", "\x0c"][len(s) % 3], 1))))
         if s:
             out.append(("value-char-dropped", S(s[:-1])))
             if s != s.swapcase():
@@ -109,6 +111,9 @@ def alt_values(V):
                 out.append(("order-zone-lines", mk([lines[1], lines[0]] + lines[2:])))
             if len(lines) >= 2:
                 out.append(("zone-line-dropped", mk(lines[1:])))
+                # a line break of the zone replaced by a character that is a line break only for str.splitlines()
+                sep = ["\u2028", "\x85", "\x0c", "\x0b", "\u2029"][len(lines[0]) % 5]
+                out.append(("zone-linebreak-to-other-separator", mk([lines[0] + sep + lines[1]] + lines[2:])))
         out.append(("zone-tag", {**V, "tag": None if V["tag"] else "text"}))
         out.append(("zone-fence", {**V, "fence": V["fence"] + "`"}))
     return out
